@@ -20,7 +20,7 @@ def absChoices (s : CState) : CChoice → List Choice
     match s.tasks[j]? with
     | none => []
     | some t =>
-      match ((s.caches[t.p.node]?).getD []).get t.p.nextHop with
+      match ((s.caches[t.p.node]?).getD []).answer t.p.nextHop with
       | some (some mac) => [.resolved j mac]
       | some none => [.unresolved j]
       | none => if t.tries = 0 then [.unresolved j] else []
